@@ -50,7 +50,7 @@ class VfsGen:
             elif k == 'messy':
                 rel = r.choice(under)[len(phys) + 1:] if under else 'a.sqf'
                 req = r.choice([v + '//' + rel, v.replace('/', '\\') + '\\' + rel.replace('/', '\\'), ' ' + v + '/' + rel + ' ', v + '/./' + rel,
-                                v[1:] + '/' + rel, v + '/' + rel + '/', v.upper() + '/' + rel])
+                                v[1:] + '/' + rel, v + '/' + rel + '/', v.upper() + '/' + rel, '\t' + v + '/' + rel + '\t ', v + '/' + rel + '\n'])
             elif k == 'physical':
                 rel = r.choice(under) if under else 'd1/a.sqf'
                 req = '/$R/' + rel
